@@ -17,6 +17,9 @@ def flag_untils(rng, n):
         nf = rng.choice([1, 2])
         f = rng.randrange(nf)
         cond = ['flag', f] if rng.random() < 0.5 else ['not', ['flag', f]]
+        use_tracked = rng.random() < 0.35
+        if use_tracked:
+            cond = ['cmp', 0, 'ge', 3]
         pre = [['set_flag', f, True]] if rng.random() < 0.5 else []
         d_enter = rng.choice([0, 0, 1, 2])
         body = [['await', ['delay', rng.choice([3, 6, 9])]], ['log', 1]]
@@ -27,13 +30,20 @@ def flag_untils(rng, n):
             # must not take the outer block's subscription along
             body = [['until', 2, cond, [['await', ['instant']], ['log', 4]]], ['log', 5]] + body
         owner = pre + ([['await', ['delay', d_enter]]] if d_enter else []) + [['until', 1, cond, body], ['log', 3]]
+        twin = None
+        if rng.random() < 0.3:
+            # a second activity guards a block of its own with an EQUAL condition (same flag / same comparison of the same
+            # tracked value): both blocks end when it fires
+            twin = pre + [['until', 3, cond, [['await', ['delay', 12]], ['log', 6]]], ['log', 7]]
         toggler = []
         for _ in range(rng.choice([1, 2, 3, 4])):
             if rng.random() < 0.7:
                 toggler.append(['await', ['delay', rng.choice([1, 1, 2, 3])]])
-            toggler.append(['set_flag', rng.randrange(nf), rng.random() < 0.5])
+            toggler.append(['set_tracked', 0, rng.choice([1, 3, 5])] if use_tracked else ['set_flag', rng.randrange(nf), rng.random() < 0.5])
             toggler.append(['log', 10 + len(toggler)])
         roots = [owner, toggler] if rng.random() < 0.5 else [toggler, owner]
+        if twin is not None:
+            roots.append(twin)
         out.append(('flag-untils', dict(start=0, till=None, roots=roots, nflags=nf, tracked=[0], nlocks=1, nqueues=1,
                                         nchans=1, res=[])))
     return out
